@@ -28,4 +28,17 @@ CLAIMS["C12"] = {
     "design_ref": "DESIGN.md §4 C12",
 }
 
+CLAIMS["C07"] = {
+    "technique": "typestate / counting dataflow and value provenance over the interprocedural MIR event graph",
+    "text": "Decides the ordering skeleton of the statement for every path (every transport timing and handler outcome): exactly one "
+            "handler invocation per constructed Request, on the Request wrapping the preamble's stream parser (R7.1); close() gets the "
+            "handler's status or ExitStatus::ABORT (R7.2); inside close(): set_stream(None), record-boundary drain and reply flush precede "
+            "the epilogue, exactly one epilogue write on every Ok path through the try_unwrap'd writer, nothing written after it, epilogue "
+            "built from the request's id, close()'s status and output_streams() iff writeable (R7.3); reuse iff KeepConn, ConnectionReset "
+            "otherwise, and run() re-enters the preamble phase only with close()'s Ok value (R7.4). Does NOT decide byte-level output "
+            "correctness per transport split, nor that the handler sees exactly the request's environment/streams (C01/C02/C09).",
+    "note": "Parser APIs are events with their documented meaning; make_request_epilogue's own encoding is C17's subject.",
+    "design_ref": "DESIGN.md §4 C07",
+}
+
 PENDING_REASON = "rules for this property are not built yet (build in progress; DESIGN.md §7 gives the order)"
